@@ -28,7 +28,7 @@ theorem nodeRun_ok (c : BusId → Rx.Cfg) : ∀ (evs : List Ev) (n : Node), Inv 
       | op o => exact absurd rfl (he o)
       | setMode b k v => exact ⟨rfl, rfl⟩
       | arrive b f tp => exact ⟨rfl, rfl⟩
-      | poll b now => exact ⟨rfl, rfl⟩
+      | poll b now k => exact ⟨rfl, rfl⟩
     have fin : (∀ o, e ≠ .op o) → ∃ n' calls, nodeRun c n (e :: evs) = some (n', calls) ∧ Inv n'.w ∧
         CallsAgree calls (expected c (view n.w) n.r (e :: evs)) := by
       intro he
@@ -50,6 +50,6 @@ theorem nodeRun_ok (c : BusId → Rx.Cfg) : ∀ (evs : List Ev) (n : Node), Inv 
         rw [← hv]; exact ⟨trivial, hc⟩
     | setMode b k v => exact fin (fun o h => by cases h)
     | arrive b f tp => exact fin (fun o h => by cases h)
-    | poll b now => exact fin (fun o h => by cases h)
+    | poll b now k => exact fin (fun o h => by cases h)
 
 end N2k.Handlers
